@@ -316,6 +316,14 @@ class C17(Engine):
         ck = crash_key(o, tag)
         if ck is not None and o.kind() in ("timeout", "event-ceiling"):
             ck = self.judge_stall(o, plan, res)
+        if o.kind() == "sigint-default" and counters_dict(o).get("sigint_handled", 0) == 0:
+            # the first Ctrl-C of the session arrived while the default action was installed; at the
+            # prompt that ends naken_util, which is fine - but not inside the run loop ("To pause it
+            # just press Ctrl-C", docs/simulating.md).  Inside the loop = delivered at the loop's usleep().
+            n = o.event_count
+            last = [o.ring[(n - k) % len(o.ring)][0] for k in (1, 2, 3)] if n >= 3 else []
+            if last == [SEAMS.index("exit"), SEAMS.index("sigint"), SEAMS.index("usleep")]:
+                ck = "killed-by-first-sigint-inside-the-run-loop"
         if ck is not None:
             res.viol(ck, how=o.kind(), damage=descr, stderr=o.stderr.decode("latin-1")[:1500], tail=o.text()[-400:])
         else:
